@@ -37,10 +37,20 @@ def _sig(f, types):
 def signatures_of(unit_json):
     out = {}
     types = unit_json["types"]
+    clos = {}
+    for f in unit_json["fns"]:
+        if f.get("kind") == "closure" or "{closure" in f["def"]:
+            clos.setdefault(f["def"].split("::{closure", 1)[0], []).append(f)
     for f in unit_json["fns"]:
         if f.get("kind") == "closure" or "{closure" in f["def"] or f.get("derived"):
             continue
-        out[f["def"]] = _sig(f, types)
+        sg = _sig(f, types)
+        # what the fn's closures call belongs to the fn (`.map(|p| to_file_name(p))`)
+        extra = set()
+        for c_ in clos.get(f["def"], []):
+            extra |= set(_sig(c_, types)["callees"])
+        sg["callees"] = sorted(set(sg["callees"]) | extra)
+        out[f["def"]] = sg
     return out
 
 
